@@ -983,6 +983,16 @@ func crashGen(r *Rng, tier string, emit func(string)) {
 				}
 			}
 		}
+		// terminal: a start-up that has to rebuild derived data on a long chain, crashed at every commit boundary.
+		// One long chain per run (more in thorough), short ones otherwise.
+		nb := 30 + r.Intn(60)
+		if h == 0 || (tier == "thorough" && h%6 == 0) {
+			nb = 1050 + r.Intn(400)
+			if tier == "thorough" && h%12 == 6 {
+				nb = 2050 + r.Intn(300)
+			}
+		}
+		emit("c8rebuild " + strconv.Itoa(nb) + " " + []string{"history", "histtxns", "addrtxns", "addrindex"}[(h+r.Intn(2))%4] + " " + u(r.U64()%1000000))
 	}
 }
 
